@@ -121,3 +121,18 @@ Example tor_valid_ex : tor_hint_to_endpoint (fun _ => false) good_tor_hint = Ok 
   /\ tor_handler (fun _ => false) TorStarting good_tor_hint = Waiting
   /\ tor_handler (fun _ => false) (TorFails "RuntimeError") good_tor_hint = Done (Exc "RuntimeError").
 Proof. vm_compute. auto. Qed.
+
+(* "never another exception", read strictly (endpoint or InvalidHintError, nothing else), does NOT hold for a Tor handler whose
+   Tor cannot be had: an accepted hint ends in the Tor's own exception e, whatever e is (tor_valid_follows_tor) ... *)
+Lemma tor_fails_own_exception : forall nonpublic e hint,
+  tor_handler nonpublic (TorFails e) hint =
+  match tor_hint_to_endpoint nonpublic hint with Ok _ => Done (Exc e) | Exc _ => Done invalid end.
+Proof. intros np e h. rewrite tor_outcome_table. destruct (tor_hint_to_endpoint np h); reflexivity. Qed.
+
+(* ... witness: "tor:a.b:80" with a Tor whose launch fails with RuntimeError *)
+Lemma tor_strict_total_refuted : exists nonpublic st hint e,
+  tor_handler nonpublic st hint = Done (Exc e) /\ e <> "InvalidHintError"%string.
+Proof.
+  exists (fun _ => false), (TorFails "RuntimeError"), good_tor_hint, "RuntimeError"%string.
+  split; [vm_compute; reflexivity | discriminate].
+Qed.
